@@ -16,6 +16,8 @@ struct Desc {
     u8 period, queued, bt_line;
     u8 ev_kind, ev_pos;
     u8 n;
+    u8 bt_port;    // audio family: which of the two ports (port 1 never has an audio listener installed by the facade)
+    u8 t0_rewrite; // timer family: 1 = start registers rewritten (start+2) after the restart, without another restart; 2 = start+2 written before, start restored after (restart saw start+2)
     u8 scale; // 1: long horizon - cycle budget, timer start values and the audio period are multiplied by 40 (large fast-forward steps)
 };
 inline u32 NCycles(const Desc& d) { return d.n * (d.scale ? 40u : 1u); }
@@ -26,11 +28,11 @@ inline std::string Show(const Desc& d) {
     static const char* mn[] = {"idle(brr -1)", "busy(inc a0; brr -2)", "nop; idle", "3 nops; idle", "busy(inc a0; brr -1,eq [falls through]; brr -3)",
                                "idle(brr -1,neq [taken])"};
     static const char* hk[] = {"count;reti", "ack ICU;count;reti", "re-arm timer0;count;reti", "push audio word;count;reti",
-                               "count;retic(context switch)", "write REPLY0;count;reti"};
+                               "count;retic(context switch)", "write REPLY0;count;reti", "rewrite timer0 start (no restart);count;reti"};
     return Fmt("{%s main='%s' handler='%s' enabled=%u timer0(mode=%u start=%u line=%u mu=%u) timer1=%u audio(period=%u queued=%u "
-               "line=%u) event(kind=%u at=%u) n=%u}",
+               "line=%u port=%u) start-rewrite=%u event(kind=%u at=%u) n=%u}",
                fam[d.family], mn[d.main], hk[d.hk], d.enabled, d.t0_mode, Start0(d), d.t0_line, d.t0_mu, d.t1_on, Period(d),
-               d.queued, d.bt_line, d.ev_kind, d.ev_pos, NCycles(d));
+               d.queued, d.bt_line, d.bt_port, d.t0_rewrite, d.ev_kind, d.ev_pos, NCycles(d));
 }
 inline std::string Ser(const Desc& d) {
     const u8* p = reinterpret_cast<const u8*>(&d);
@@ -78,6 +80,7 @@ struct Runner {
             {0x1885, 0xC701, 0x45C0}, // mov r4,[r5] (audio FIFO) ; add ; reti
             {0xC701, 0x45D0},         // add ; retic
             {0x1801, 0xC701, 0x45C0}, // mov r0,[r1] (REPLY0) ; add ; reti
+            {0x1843, 0xC701, 0x45C0}, // mov r2,[r3] (timer0 start low, no restart) ; add ; reti
         };
         const auto& h = handlers[d.hk];
         for (u32 v : {0x0006u, 0x000Eu, 0x0016u, 0x0200u})
@@ -91,9 +94,9 @@ struct Runner {
         r.sp = 0x0800;
         r.r[1] = d.hk == 5 ? 0x80C0 : 0x8202;
         r.r[0] = d.hk == 5 ? 0x0042 : 0xFFFF;
-        r.r[3] = 0x8020;
-        r.r[2] = (u16)((d.t0_mode << 2) | (d.t0_mu << 9) | (1 << 10));
-        r.r[5] = 0x82C6;
+        r.r[3] = d.hk == 6 ? 0x8024 : 0x8020;
+        r.r[2] = d.hk == 6 ? (u16)(d.scale ? 77 : 3) : (u16)((d.t0_mode << 2) | (d.t0_mu << 9) | (1 << 10));
+        r.r[5] = (u16)(0x82C6 + d.bt_port * 0x80);
         r.r[4] = 0x1234;
         r.ie = d.enabled == 2 ? 0 : 1;
         for (int i = 0; i < 3; ++i) {
@@ -117,6 +120,8 @@ struct Runner {
                 route(9, (d.t0_line + 1) % 3);
         } else if (d.family == 1) {
             route(11, d.bt_line);
+            if (d.bt_port)
+                route(12, d.bt_line); // icu.md numbers the second port 12; either line is accepted (C07 wiring note)
             if (d.t1_on)
                 route(10, 1);
         } else {
@@ -127,8 +132,12 @@ struct Runner {
         t.MMIOWrite(0x206, en[0]), t.MMIOWrite(0x208, en[1]), t.MMIOWrite(0x20A, en[2]), t.MMIOWrite(0x20C, en[3]);
         // ---- peripherals ----
         if (d.family == 0 || d.family == 2) {
-            t.MMIOWrite(0x24, Start0(d)), t.MMIOWrite(0x26, 0);
+            t.MMIOWrite(0x24, (u16)(Start0(d) + (d.t0_rewrite == 2 ? 2 : 0))), t.MMIOWrite(0x26, 0);
             t.MMIOWrite(0x20, (u16)((d.t0_mode << 2) | (d.t0_mu << 9) | (1 << 10)));
+            if (d.t0_rewrite == 1)
+                t.MMIOWrite(0x24, (u16)(Start0(d) + 2)); // a later reload must use this value, the running count must not
+            if (d.t0_rewrite == 2)
+                t.MMIOWrite(0x24, Start0(d));
             if (d.t1_on) {
                 t.MMIOWrite(0x34, (u16)(d.scale ? 97 : 3)), t.MMIOWrite(0x36, 0);
                 // t1_on == 2: armed but paused - a paused timer holds its counter however time advances
@@ -136,10 +145,10 @@ struct Runner {
             }
         }
         if (d.family == 1) {
-            m.impl->btdmp[0].SetTransmitPeriod(Period(d)); // not reachable through MMIO
+            m.impl->btdmp[d.bt_port].SetTransmitPeriod(Period(d)); // not reachable through MMIO
             for (u16 i = 0; i < d.queued; ++i)
-                t.MMIOWrite(0x2C6, (u16)(0x0101 + i));
-            t.MMIOWrite(0x2BE, 0x8000);
+                t.MMIOWrite((u16)(0x2C6 + d.bt_port * 0x80), (u16)(0x0101 + i));
+            t.MMIOWrite((u16)(0x2BE + d.bt_port * 0x80), 0x8000);
             if (d.t1_on) { // a single-shot timer next to the audio port
                 t.MMIOWrite(0x24, (u16)(d.scale ? 333 : 7)), t.MMIOWrite(0x26, 0);
                 t.MMIOWrite(0x20, (0 << 2) | (1 << 10));
@@ -432,6 +441,38 @@ inline std::vector<Desc> Family(bool thorough) {
                             d.t1_on = 0, d.n = n;
                             v.push_back(d);
                         }
+        // family 0d: start registers rewritten without a restart (by the host before the run, or by the handler): a reload that
+        // happens inside a fast-forward must use the registers as they are now
+        for (u8 main : {0, 1, 2})
+            for (u8 mode : {0, 1, 2})
+                for (u8 start : {0, 1, 3, 6})
+                    for (u8 line : {0, 3, 4})
+                        for (u8 rw = 0; rw < 3; ++rw)
+                            for (u8 hk : {0, 6})
+                                for (u8 sc = 0; sc < 2; ++sc) {
+                                    if (rw == 0 && hk == 0)
+                                        continue;
+                                    if (sc && n != 36)
+                                        continue;
+                                    Desc d{};
+                                    d.family = 0, d.main = main, d.hk = hk, d.enabled = 1, d.t0_mode = mode, d.t0_start = start;
+                                    d.t0_line = line, d.t0_mu = 1, d.t1_on = 0, d.n = n, d.t0_rewrite = rw, d.scale = sc;
+                                    v.push_back(d);
+                                }
+        // family 1d: the second audio port (the facade installs the audio listener on port 0 only: port 1 runs without one)
+        for (u8 main : {0, 2})
+            for (u8 period : {1, 2, 3, 5})
+                for (u8 q : {0, 1, 2, 3, 4, 6, 15, 16})
+                    for (u8 line : {0, 3, 4})
+                        for (u8 hk : {0, 3})
+                            for (u8 sc = 0; sc < 2; ++sc) {
+                                if (sc && (n != 36 || period == 2))
+                                    continue;
+                                Desc d{};
+                                d.family = 1, d.main = main, d.hk = hk, d.enabled = 1, d.period = period, d.queued = q, d.bt_line = line;
+                                d.t1_on = 0, d.n = n, d.bt_port = 1, d.scale = sc;
+                                v.push_back(d);
+                            }
         // family 1: audio port
         for (u8 main = 0; main < 4; ++main)
             for (u8 period = 1; period <= 5; ++period)
